@@ -32,6 +32,12 @@ func runC12(c *Ctx) {
 	c.armPoolArgs("N8-pool-passes-its-arguments", func(m string) bool {
 		return strings.HasPrefix(m, "ExecuteSelected") && !strings.HasSuffix(m, "WithSpecifiedEM")
 	}, 10)
+	// the pool's dispatcher by execution model hands a selection to the selected method of that model and to
+	// nothing else: with no names it must not fall back on the whole-set method (the dispatch table of C16-Q5)
+	c.only = func(key string) bool { return strings.HasPrefix(key, "GenginePool.ExecuteSelectedWithSpecifiedEM#") }
+	c.ruleModelTable("N9-selected-dispatch-runs-the-selection-only")
+	c.only = nil
+	c.Min("N9-selected-dispatch-runs-the-selection-only", 4)
 
 	fns := selectedFns(c)
 	if len(fns) < 11 {
